@@ -773,6 +773,10 @@ def run(ck):
     rng = ck.rng("c05")
     thorough = ck.tier == "thorough"
     selftest(ck, ck.rng("selftest"), 4 if thorough else 1)
+    if ck.shard == 0:
+        # call-history independence of every operation (shared monitor, added by the framework owner)
+        from .. import history
+        history.run(ck, "C05", reps=4 if thorough else 2)
     n_adj = 24000 if thorough else 3000
     n_retr = 12000 if thorough else 1500
     n_jinvp = 12000 if thorough else 1500
